@@ -390,9 +390,13 @@ func checkPairSite(e *Env, rule string, g *ssa.Function, site ssa.CallInstructio
 // deferGuardedByErrCellLeftNil: the deferred closure removes only when an error cell is non-nil. (NewObservation arms its cleanup before
 // registering; the duplicate path sets the cell, so its cleanup DOES run – against its own, not-stored observation: pullOutObservation by
 // token would remove the owner's entry.) Only accept when the closure's removal is keyed by an object identity, which it is not here: always false.
-func deferGuardedByErrCellLeftNil(g *ssa.Function, d *ssa.Defer, loadedBlk *ssa.BasicBlock) bool { return false }
+func deferGuardedByErrCellLeftNil(g *ssa.Function, d *ssa.Defer, loadedBlk *ssa.BasicBlock) bool {
+	return false
+}
 
-func dstopArmedAtFrom(g *ssa.Function, from ssa.Instruction, dstop func(*ssa.Defer) bool) bool { return false }
+func dstopArmedAtFrom(g *ssa.Function, from ssa.Instruction, dstop func(*ssa.Defer) bool) bool {
+	return false
+}
 
 func reachableFrom(g *ssa.Function, from ssa.Instruction, to ssa.Instruction) bool {
 	q := &core.PathQuery{Fn: g, From: from, Target: func(in ssa.Instruction) bool { return in == to }}
